@@ -397,7 +397,8 @@ func vfC16Run(c vfSerCase, ctx *vfCtx) *vfViolation {
 // vfC16Segments: clause (c) — a store directory with three segments in which one component
 // file of the middle segment is truncated to chosen prefixes / emptied / deleted: Open and
 // searches succeed, exactly the documents of the undamaged segments are found, and the damaged
-// segment contributes all of its documents (cut inside the gzip trailer) or none.
+// segment contributes none of its documents (also when the cut lies inside the gzip trailer of the
+// file that is read last: F23).
 func vfC16Segments(seedCase *vfSerCase, ctx *vfCtx) *vfViolation {
 	root, err := os.MkdirTemp(vfEnv("VERIF_SCRATCH"), "c16seg-")
 	if err != nil {
@@ -455,6 +456,8 @@ func vfC16Segments(seedCase *vfSerCase, ctx *vfCtx) *vfViolation {
 		}
 	}
 	defer func() { vfProtectedFiles = nil }()
+	vfDamagedMustBeAbsent = true
+	defer func() { vfDamagedMustBeAbsent = false }()
 	seq := 0
 	images := int64(0)
 	for _, kindName := range []string{"hybrid", "vector", "text", "metadata"} {
